@@ -72,6 +72,7 @@ func Run(seed uint64, index int64, o hx.Opts) *hx.Result {
 	res := &hx.Result{Property: "C18", Index: index, Seed: seed, Extra: map[string]int64{}}
 	en := hx.AllKinds()
 	cfg := rt.Config{Seed: seed, Replay: o.Replay, Verbose: o.Verbose, NPoints: o.NPoints, Bias: hx.Swarm(seed, en), MaxSteps: 2_000_000}
+	cfg.PCT = hx.SwarmPCT(seed)
 	if o.Scenario == "openum" {
 		for k := range cfg.Bias {
 			cfg.Bias[k] = 0
